@@ -33,6 +33,7 @@ type Solver struct {
 	inPath  bool
 	pathLog strings.Builder
 	logging bool
+	bitOps      int
 	Restarts    int
 	Fallbacks   int
 	FallbackOK  int
@@ -134,6 +135,7 @@ func (s *Solver) PathBegin(ts *TermStore) {
 	s.inPath = true
 	s.pathLog.Reset()
 	s.logging = true
+	s.bitOps = 0
 }
 
 func (s *Solver) PathEnd() {
@@ -186,6 +188,10 @@ func (s *Solver) define(t *Term) {
 				// 0-ary: refer by name directly
 			}
 		default:
+			switch x.op {
+			case OpShl, OpLShr, OpAShr, OpBAnd, OpBOr, OpBXor, OpBNot, OpExtract, OpConcat:
+				s.bitOps++
+			}
 			s.send("(define-fun " + x.ref() + " () " + sortStr(x.w) + " " + x.body() + ")\n")
 		}
 		x.defined = true
@@ -451,8 +457,9 @@ func (s *Solver) fallback(extra *Term, vars []*Term) (CheckResult, map[string]ui
 		{"cvc5", []string{"--lang=smt2", "--produce-models", fmt.Sprintf("--tlimit=%d", to*500), f.Name()}},
 		{z3bin, []string{fmt.Sprintf("-T:%d", to), f.Name()}},
 	}
-	// first: cvc5 with the integer encoding of bit-vector arithmetic (decides linear 64-bit arithmetic in milliseconds)
-	{
+	// first: cvc5 with the integer encoding of bit-vector arithmetic (decides linear 64-bit arithmetic in milliseconds);
+	// skipped when the path is dominated by bit-level operations, where that encoding is slow
+	if s.bitOps < 16 {
 		lim := to * 1000 / 8
 		if lim < 5000 {
 			lim = 5000
